@@ -439,12 +439,14 @@ fn build_module(s: &ModSpec) -> Option<(Vec<Inst>, Expected)> {
     for k in 0..s.consts {
         let id = next;
         next += 1;
-        if k == 2 && const_ids.len() >= 2 && find(&type_ids, "vector").is_some() {
-            insts.push(Inst::new("ConstantComposite", Some(find(&type_ids, "vector").unwrap()), Some(id), vec![Arg::IdRef(const_ids[1]), Arg::IdRef(const_ids[0])]));
-            const_debug.push("Composite T1 T0".to_string());
+        if k == 3 && const_ids.len() >= 2 && find(&type_ids, "vector").is_some() {
+            insts.push(Inst::new("ConstantComposite", Some(find(&type_ids, "vector").unwrap()), Some(id), vec![Arg::IdRef(const_ids[2]), Arg::IdRef(const_ids[0])]));
+            const_debug.push("Composite T2 T0".to_string());
         } else {
-            insts.push(Inst::new("Constant", Some(int), Some(id), vec![Arg::Lit32(0xFFFF_FFF0 + k as u32)]));
-            const_debug.push(format!("Int {}", (0xFFFF_FFF0u32 + k as u32) as i32));
+            // the third declaration repeats the first one's value: one constant per DECLARATION, equal or not
+            let v = 0xFFFF_FFF0u32 + (k % 2) as u32;
+            insts.push(Inst::new("Constant", Some(int), Some(id), vec![Arg::Lit32(v)]));
+            const_debug.push(format!("Int {}", v as i32));
         }
         const_ids.push(id);
     }
@@ -697,12 +699,12 @@ pub fn run(tier: Tier) -> Run {
     for (ti, ts) in type_seqs.iter().enumerate() {
         let caps = cap_lists[ti % cap_lists.len()].clone();
         let f = func_shapes[ti % func_shapes.len()].clone();
-        specs.push(ModSpec { caps, types: ts.clone(), consts: ti % 4, funcs: vec![f], control: [0u32, 1, 2, 4, 8, 3][ti % 6] });
+        specs.push(ModSpec { caps, types: ts.clone(), consts: ti % 5, funcs: vec![f], control: [0u32, 1, 2, 4, 8, 3][ti % 6] });
     }
     for (fi, f) in func_shapes.iter().enumerate() {
         for caps in &cap_lists {
-            specs.push(ModSpec { caps: caps.clone(), types: vec!["float", "vector"], consts: 3, funcs: vec![f.clone()], control: (fi % 4) as u32 });
-            specs.push(ModSpec { caps: caps.clone(), types: vec![], consts: fi % 3, funcs: vec![f.clone(), func_shapes[(fi * 7 + 3) % func_shapes.len()].clone()], control: 1 });
+            specs.push(ModSpec { caps: caps.clone(), types: vec!["float", "vector"], consts: 4, funcs: vec![f.clone()], control: (fi % 4) as u32 });
+            specs.push(ModSpec { caps: caps.clone(), types: vec![], consts: fi % 5, funcs: vec![f.clone(), func_shapes[(fi * 7 + 3) % func_shapes.len()].clone()], control: 1 });
         }
     }
     let res: Vec<(Vec<Viol>, &'static str)> = specs.par_iter().map(check_module).collect();
